@@ -231,15 +231,3 @@ func CheckC10(r *core.Run) {
 	traces = append(traces, scen...)
 	judgeTx(r, "TxTrace_C10.cfg", traces, false)
 }
-
-// CheckC01: crash atomicity.
-func CheckC01(r *core.Run) {
-	r.Rule = "random histories with I/O recording; CrashSafe (every subset of un-synced writes, torn header) is evaluated by TLC on the decoded real I/O after every write/sync; distinct = configurations/seeds"
-	cfgs := baseCfgs(r, "c01", r.Pick(36, 200), func(i int, c *HistCfg) {
-		c.Txs = r.Pick(40, 80)
-		c.KeepSmall = 30
-	})
-	traces := histories(r, cfgs)
-	sampleTrace(r, traces)
-	judgeTx(r, "TxTrace_C01.cfg", traces, false)
-}
